@@ -18,9 +18,11 @@
 //!
 //! Thorough tier adds `stress.rs`: 8 threads × 3 keys, regular-register history check.
 
+mod m2;
 mod real;
 mod refcache;
 mod stress;
+mod upstream;
 
 use std::time::{Duration, Instant};
 
@@ -30,6 +32,7 @@ use vh::prng::{fnv64, Rng};
 
 use real::*;
 use refcache::{Bounds, Config, Finding, Judgement, Obs, RefCache, Slot, View, DAY, NS_PER_S};
+use upstream::UpClass;
 
 // ---------------------------------------------------------------------------------------------
 // case description (self-contained, replayable)
@@ -41,6 +44,9 @@ pub enum Op {
     Clear,
     Ins(usize, View),
     Transient(usize, &'static str),
+    /// M1: an upstream response message (wire form) received for key k; converted and inserted the
+    /// way the resolver does it (`real::insert_upstream`), judged via `upstream::classify`
+    Up(usize, Vec<u8>),
 }
 
 #[derive(Clone, Debug)]
@@ -95,6 +101,7 @@ impl Op {
             Op::Clear => json!(["clr"]),
             Op::Ins(k, v) => json!(["ins", k, v.to_json()]),
             Op::Transient(k, kind) => json!(["err", k, kind]),
+            Op::Up(k, wire) => json!(["up", k, upstream::hex(wire), upstream::describe(wire)]),
         }
     }
     fn from_json(v: &Value) -> Option<Op> {
@@ -104,6 +111,7 @@ impl Op {
             "get" => Op::Get(k()),
             "clr" => Op::Clear,
             "ins" => Op::Ins(k(), view_from_json(&v[2])),
+            "up" => Op::Up(k(), upstream::unhex(v[2].as_str()?)?),
             "err" => {
                 let kind = v[2].as_str()?;
                 Op::Transient(k(), TRANSIENT_KINDS.iter().find(|x| **x == kind).copied().unwrap_or("refused"))
@@ -124,7 +132,7 @@ impl Case {
             "keys": self.keys.iter().map(|(n, t)| json!([n, t])).collect::<Vec<_>>(),
             "key_names": self.keys.iter().map(|(n, t)| format!("{} type {}", NAMES[*n % NAMES.len()], t)).collect::<Vec<_>>(),
             "ops": self.ops[..upto.min(self.ops.len())].iter().map(|o| o.to_json()).collect::<Vec<_>>(),
-            "time_unit": "adv = nanoseconds of virtual time; bounds = [pos_min,pos_max,neg_min,neg_max] seconds (null = unset); slots = [section, rtype, ttl, tag]",
+            "time_unit": "adv = nanoseconds of virtual time; bounds = [pos_min,pos_max,neg_min,neg_max] seconds (null = unset); slots = [section, rtype, ttl, tag]; up = [key, upstream response message as hex, the same message decoded (informational)]",
         })
     }
     fn from_json(v: &Value) -> Case {
@@ -167,6 +175,19 @@ pub struct Exec {
     now: u64,
     entry_hash: Vec<u64>,
     transient_pending: Vec<bool>,
+    /// M1: class label of the upstream message that was the last (transient-class) thing received for the key
+    up_transient: Vec<Option<&'static str>>,
+    /// M1: what the last `Op::Up` was (for the counters of the caller)
+    pub last_up: Option<UpInfo>,
+}
+
+pub struct UpInfo {
+    pub label: &'static str,
+    pub features: Vec<&'static str>,
+    /// "stored" | "stored_ambiguous" | "transient" | "opaque"
+    pub class: &'static str,
+    /// what hickory made of the message
+    pub outcome: &'static str,
 }
 
 pub struct GetOutcome {
@@ -174,6 +195,8 @@ pub struct GetOutcome {
     pub obs: Obs,
     pub wallclock_passed: bool,
     pub after_transient: bool,
+    /// M1: the get follows an upstream message of a transient class (label)
+    pub after_up_transient: Option<&'static str>,
     pub case_hash: u64,
 }
 
@@ -188,6 +211,8 @@ impl Exec {
             now: 0,
             entry_hash: vec![0; case.keys.len()],
             transient_pending: vec![false; case.keys.len()],
+            up_transient: vec![None; case.keys.len()],
+            last_up: None,
         }
     }
 
@@ -212,7 +237,56 @@ impl Exec {
                 self.model.insert_stored(k, self.keys[k].1, v.clone(), self.now);
                 self.entry_hash[k] = view_hash(v);
                 self.transient_pending[k] = false;
+                self.up_transient[k] = None;
                 r.err().map(|p| self.panic_outcome("insert", p))
+            }
+            Op::Up(k, wire) => {
+                let k = *k % self.keys.len();
+                let q = self.queries[k].clone();
+                let at = self.real.at(self.now);
+                let r = mon::catch(|| insert_upstream(&self.real.cache, &q, wire, at));
+                let qname = vh::refwire::labels_of(NAMES[self.keys[k].0 % NAMES.len()]);
+                let m = upstream::classify(wire, &qname, self.keys[k].1);
+                let class = match m.class {
+                    UpClass::Transient => {
+                        self.model.insert_transient(k);
+                        self.transient_pending[k] = true;
+                        self.up_transient[k] = Some(m.label);
+                        "transient"
+                    }
+                    UpClass::Opaque => {
+                        self.model.set_opaque(k);
+                        self.transient_pending[k] = false;
+                        self.up_transient[k] = None;
+                        "opaque"
+                    }
+                    UpClass::Stored(mut cands) => {
+                        // U4: several admissible interpretations — the one the cache chose is identified by
+                        // the form / SOA serial of the entry at age 0 (this peek is not judged)
+                        let ambiguous = cands.len() > 1;
+                        let mut pick = 0;
+                        if ambiguous {
+                            if let Ok(Obs::Entry(v)) = mon::catch(|| observe(self.real.cache.get(&q, at))) {
+                                pick = cands.iter().position(|c| c.same_entry(&v)).unwrap_or(0);
+                            }
+                        }
+                        let v = cands.swap_remove(pick);
+                        self.entry_hash[k] = view_hash(&v);
+                        self.model.insert_stored(k, self.keys[k].1, v, self.now);
+                        let mut labels = vec![m.label];
+                        labels.extend(m.features.iter().copied());
+                        self.model.set_labels(k, labels);
+                        self.transient_pending[k] = false;
+                        self.up_transient[k] = None;
+                        if ambiguous {
+                            "stored_ambiguous"
+                        } else {
+                            "stored"
+                        }
+                    }
+                };
+                self.last_up = Some(UpInfo { label: m.label, features: m.features, class, outcome: r.as_ref().map(|o| *o).unwrap_or("panic") });
+                r.err().map(|p| self.panic_outcome("insert_upstream", p))
             }
             Op::Transient(k, kind) => {
                 let k = *k % self.keys.len();
@@ -222,6 +296,7 @@ impl Exec {
                 let r = mon::catch(|| self.real.cache.insert(q, Err(e), at));
                 self.model.insert_transient(k);
                 self.transient_pending[k] = true;
+                self.up_transient[k] = None;
                 r.err().map(|p| self.panic_outcome("insert_transient", p))
             }
             Op::Get(k) => {
@@ -235,6 +310,7 @@ impl Exec {
                 let wallclock_passed = j.unexpected_none
                     && Instant::now() >= self.real.base + Duration::from_nanos(j.soft_deadline);
                 let after_transient = std::mem::replace(&mut self.transient_pending[k], false);
+                let after_up_transient = self.up_transient[k].take();
                 let okind = match &obs {
                     Obs::None => 0u64,
                     Obs::Entry(_) => 1,
@@ -244,7 +320,7 @@ impl Exec {
                 let case_hash = self.entry_hash[k]
                     ^ (self.now.saturating_sub(t0)).wrapping_mul(0x9E37_79B9_7F4A_7C15)
                     ^ okind.rotate_left(61);
-                Some(GetOutcome { j, obs, wallclock_passed, after_transient, case_hash })
+                Some(GetOutcome { j, obs, wallclock_passed, after_transient, after_up_transient, case_hash })
             }
         }
     }
@@ -254,7 +330,7 @@ impl Exec {
         let obs = Obs::Panic(sig.clone());
         let mut j = Judgement::default();
         j.findings.push(Finding { rule: "panic", sig, expected: json!("no panic"), observed: json!({"panic": p.message, "at": p.location}) });
-        GetOutcome { j, obs, wallclock_passed: false, after_transient: false, case_hash: 0 }
+        GetOutcome { j, obs, wallclock_passed: false, after_transient: false, after_up_transient: None, case_hash: 0 }
     }
 }
 
@@ -288,7 +364,7 @@ fn witness_case(case: &Case, i: usize, key: Option<usize>, rule: &str, sig: &str
             .iter()
             .filter(|o| match o {
                 Op::Adv(_) | Op::Clear => true,
-                Op::Get(x) | Op::Ins(x, _) | Op::Transient(x, _) => *x % case.keys.len() == k,
+                Op::Get(x) | Op::Ins(x, _) | Op::Transient(x, _) | Op::Up(x, _) => *x % case.keys.len() == k,
             })
             .cloned()
             .collect();
@@ -304,7 +380,7 @@ fn witness_case(case: &Case, i: usize, key: Option<usize>, rule: &str, sig: &str
         // drop everything before the last stored insert that precedes the failing op, if it still reproduces
         let hits = |c: &Case| silent_findings(c).iter().any(|(r, s)| r == rule && s == sig);
         if hits(&small) {
-            if let Some(last_ins) = small.ops.iter().rposition(|o| matches!(o, Op::Ins(..))) {
+            if let Some(last_ins) = small.ops.iter().rposition(|o| matches!(o, Op::Ins(..) | Op::Up(..))) {
                 let mut tiny = small.clone();
                 tiny.ops = small.ops[last_ins..].to_vec();
                 if hits(&tiny) {
@@ -637,6 +713,38 @@ fn account(rep: &mut Reporter, acct: &mut Acct, case: &Case, cfg_hash: u64, op_i
         rep.count("gets_on_inserted_key");
     }
     let small_cap = (case.capacity as usize) < case.keys.len() + 2;
+    if j.opaque {
+        rep.count("m1/gets_dont_care");
+        rep.count(if matches!(o.obs, Obs::None) { "m1/dont_care_none" } else { "m1/dont_care_some" });
+    }
+    if let Some(l) = o.after_up_transient {
+        rep.count("m1/gets_after_transient_class");
+        rep.count(&format!("m1/get_after/{l}"));
+        if matches!(o.obs, Obs::None) {
+            rep.count(&format!("m1/not_cached/{l}"));
+        }
+    }
+    if !j.labels.is_empty() {
+        if j.hit {
+            rep.count("m1/hits");
+            if j.elapsed_s > 0 {
+                rep.count("m1/hits_aged_ge_1s");
+            }
+            if j.at_deadline {
+                rep.count("m1/hits_exactly_at_deadline");
+            }
+            for l in &j.labels {
+                rep.count(&format!("m1/hit/{l}"));
+            }
+        }
+        if j.expired_miss {
+            rep.count("m1/expiries");
+            rep.count(&format!("m1/expired/{}", j.labels[0]));
+        }
+        if j.unexpected_none && !small_cap && !o.wallclock_passed {
+            rep.count("m1/unexpected_none");
+        }
+    }
     if j.hit {
         rep.count("hits");
         rep.count(if j.neg_hit { "hits_negative" } else { "hits_positive" });
@@ -731,7 +839,15 @@ fn run_generated_history(rep: &mut Reporter, acct: &mut Acct, rng: &mut Rng, nop
             Op::Get(k)
         } else {
             focus = None;
-            match rng.weighted(&[38, 18, 9, 9, 24, 2]) {
+            match rng.weighted(&[37, 16, 8, 8, 24, 2, 11]) {
+                6 => {
+                    let k = rng.usize_below(nk);
+                    let qname = vh::refwire::labels_of(NAMES[case.keys[k].0 % NAMES.len()]);
+                    if rng.chance(1, 3) {
+                        focus = Some(k);
+                    }
+                    Op::Up(k, upstream::gen_upstream(rng, &qname, case.keys[k].1, &mut || g.tag(), &mut gen_ttl))
+                }
                 0 => Op::Get(rng.usize_below(nk)),
                 1 => {
                     let k = rng.usize_below(nk);
@@ -758,6 +874,7 @@ fn run_generated_history(rep: &mut Reporter, acct: &mut Acct, rng: &mut Rng, nop
                 rep.count(&format!("transient/{kind}"));
             }
             Op::Clear => rep.count("clears"),
+            Op::Up(..) => {}
             Op::Adv(ns) => {
                 rep.count(if *ns == 0 {
                     "advance/zero"
@@ -771,10 +888,23 @@ fn run_generated_history(rep: &mut Reporter, acct: &mut Acct, rng: &mut Rng, nop
         }
         case.ops.push(op.clone());
         let key = match &op {
-            Op::Get(k) | Op::Ins(k, _) | Op::Transient(k, _) => *k,
+            Op::Get(k) | Op::Ins(k, _) | Op::Transient(k, _) | Op::Up(k, _) => *k,
             _ => 0,
         };
-        if let Some(o) = ex.apply(&op) {
+        let applied = ex.apply(&op);
+        if let Some(u) = ex.last_up.take() {
+            rep.count("m1/cases");
+            rep.count(&format!("m1/class/{}", u.label));
+            rep.count(&format!("m1/model/{}", u.class));
+            rep.count(&format!("m1/hickory/{}", u.outcome));
+            for f in &u.features {
+                rep.count(&format!("m1/feature/{f}"));
+            }
+            if let Op::Up(_, wire) = &op {
+                rep.sample(|| json!({"m1": upstream::describe(wire), "class": u.label, "model": u.class, "hickory": u.outcome}));
+            }
+        }
+        if let Some(o) = applied {
             if matches!(op, Op::Get(_)) {
                 account(rep, acct, &case, cfg_hash, i, key, o);
             } else {
@@ -800,6 +930,57 @@ fn replay_history(rep: &mut Reporter, case: &Case) {
     }
 }
 
+fn m1_musts(rep: &mut Reporter, thorough: bool) {
+    let m = |q: u64| if thorough { q * 20 } else { q };
+    rep.must("m1/cases", m(300_000));
+    rep.must("m1/hits", m(200_000));
+    rep.must("m1/hits_aged_ge_1s", m(50_000));
+    rep.must("m1/hits_exactly_at_deadline", m(40_000));
+    rep.must("m1/expiries", m(60_000));
+    rep.must("m1/gets_after_transient_class", m(50_000));
+    for c in [
+        "nxdomain_with_soa",
+        "nodata_with_soa",
+        "nxdomain_no_soa",
+        "nodata_no_soa",
+        "referral",
+        "answer",
+        "answer_with_cname",
+        "cname_chain_no_final",
+        "other_types_only",
+        "nxdomain_with_cname",
+    ] {
+        rep.must(&format!("m1/class/{c}"), m(8_000));
+        rep.must(&format!("m1/hit/{c}"), m(8_000));
+        rep.must(&format!("m1/expired/{c}"), m(1_000));
+    }
+    for c in ["servfail", "refused", "formerr", "notimp", "other_error_rcode", "tc_empty", "tc_answer", "not_a_response"] {
+        rep.must(&format!("m1/class/{c}"), m(5_000));
+        rep.must(&format!("m1/not_cached/{c}"), m(1_000));
+    }
+    for c in ["no_question", "question_mismatch", "two_questions", "unassigned_rcode"] {
+        rep.must(&format!("m1/class/{c}"), m(2_000));
+    }
+    for f in [
+        "soa_ttl_lt_minimum",
+        "soa_ttl_gt_minimum",
+        "soa_ttl_eq_minimum",
+        "soa_at_qname",
+        "soa_above_qname",
+        "soa_unrelated",
+        "two_soa",
+        "ns_and_soa",
+        "ns_no_soa",
+        "ns_with_glue",
+        "ns_without_glue",
+        "soa_outside_authority",
+        "soa_only_in_additional",
+        "qtype_outside_answer",
+    ] {
+        rep.must(&format!("m1/hit/{f}"), m(if f == "soa_only_in_additional" { 1_500 } else { 8_000 }));
+    }
+}
+
 fn main() {
     let ctx = Ctx::from_args("C15");
     mon::install_panic_monitor();
@@ -809,6 +990,8 @@ fn main() {
         let c = &w["case"];
         if c["mode"].as_str() == Some("stress") {
             stress::replay(&mut rep, c);
+        } else if c["mode"].as_str() == Some("m2") {
+            m2::replay(&mut rep, c);
         } else {
             let case = Case::from_json(c);
             if case.keys.is_empty() {
@@ -859,6 +1042,15 @@ fn main() {
         rep.must(&format!("hits_shape/{s}"), m(500));
     }
 
+    m2::musts(&mut rep, t);
+    m1_musts(&mut rep, t);
+    // M2 runs in real time (mostly sleeping) on its own thread while the histories run here; its
+    // verdicts only depend on instants measured around each call, not on how the threads are scheduled
+    let m2_thread = {
+        let ctx = ctx.clone();
+        std::thread::Builder::new().name("m2".into()).spawn(move || m2::run(&ctx)).expect("spawn m2")
+    };
+
     let mut rng = ctx.rng("histories");
     let mut acct = Acct { live_gets: 0, unexpected_none: 0, seen: Default::default() };
     let budget = ctx.budget(12_000_000, 150_000_000);
@@ -875,6 +1067,11 @@ fn main() {
         rep.inconclusive(
             "unexpected_none > 1 % of live gets at large capacity: the cache drops live entries (see counters unexpected_none, unexpected_none_after_transient); expiry clauses were not observable",
         );
+    }
+
+    match m2_thread.join() {
+        Ok(out) => m2::merge(&mut rep, out),
+        Err(_) => rep.inconclusive("harness: the M2 thread panicked outside the code under test"),
     }
 
     // threaded stress: full size in the thorough tier, a small share on every quick run
